@@ -180,7 +180,7 @@ fn claims_for(r: &mut Rng, same: bool, thread: u32, i: u64) -> Value {
         "nationalities": ["DE", "FR", ["x", "y"]], "items": [{"a": 1}, {"b": [1, 2]}], "flag": true, "none": null,
         // names that read like paths of other claims: every disclosure still needs its own salt
         "address.street": "x", "address.geo.lat": 1, "nationalities[1]": "FR", "items[0].a": 1, "items[1]": {"b": [1, 2]},
-        "nationalities[2][0]": "x", "$.name": "Erika Mustermann", "": {"": ""}, "twins": ["same", "same", {"a": 1}, {"a": 1}]
+        "nationalities[2][0]": "x", "$.name": "Erika Mustermann", "": {"": ""}, "twins": ["same", "same", {"a": 1}, {"a": 1}], "empty": {}, "empties": [{}, [], {}]
     });
     if !same {
         v["thread"] = json!(thread);
@@ -755,6 +755,30 @@ pub fn run(ctx: &Ctx) -> Report {
                     }
                 }
             }
+        }
+    }
+    // every byte value occurs (over >= 50 000 salts each value is expected thousands of times)
+    if n >= 50_000 {
+        let mut hist = [0u64; 256];
+        for s in &all_salts {
+            if let Ok(b) = model::b64d(s) {
+                for x in b.iter().take(16) {
+                    hist[*x as usize] += 1;
+                }
+            }
+        }
+        let missing: Vec<usize> = (0..256).filter(|v| hist[*v] == 0).collect();
+        let expected = (n * 16) as f64 / 256.0;
+        let worst = hist.iter().map(|c| ((*c as f64) - expected).abs() / expected.sqrt()).fold(0.0f64, f64::max);
+        l.max("salts.byte-values-seen", (256 - missing.len()) as u64);
+        if !missing.is_empty() || worst > 10.0 {
+            l.violate(Violation {
+                subcheck: "salt-bits-unbalanced".into(),
+                class: "whole-run".into(),
+                observed: if missing.is_empty() { format!("a byte value deviates {worst:.1} sigma from its expected frequency") } else { format!("byte value(s) {missing:?} never occur in {} salt bytes", n * 16) },
+                case: 0,
+                detail: json!({"salts": n, "missing_byte_values": missing, "worst_sigma": worst}),
+            });
         }
     }
     let mut bit_info = json!(null);
